@@ -2,7 +2,7 @@
 from contracts import ptype as _p
 
 META = {
-    'level_text': 'Proof by complete enumeration with the documentation as oracle: the rst tables are parsed on every run and every (plane type x wavefront type) cell - for Plane(ptype=...), every documented plane class, wavefronts with and without fields, and wavefronts whose ptype object is an equal copy - is decided by executing the real constructors and multiply methods through the interpreter (symbolic wavelength, focal length and tilt angles): the result type is the documented one or TypeError is raised, a refusal writes to neither operand, propagation maps pupil <-> image and refuses none, PType equality/hash are consistent, and the Wavefront.ptype setter keeps the type in {none, pupil, image} (the induction step that extends the single-step table to sequences of any length). Rotate and Flip are a recorded known finding.',
+    'level_text': 'Every plane class with a ptype keyword (Plane, Tilt, DispersiveTilt, Grism) reports the requested type for all five types, given by name or as object; propagate_dft and propagate_fft, executed on a real one-field wavefront, flip pupil <-> image and refuse type none with TypeError. Proof by complete enumeration with the documentation as oracle: the rst tables are parsed on every run and every (plane type x wavefront type) cell - for Plane(ptype=...), every documented plane class, wavefronts with and without fields, and wavefronts whose ptype object is an equal copy - is decided by executing the real constructors and multiply methods through the interpreter (symbolic wavelength, focal length and tilt angles): the result type is the documented one or TypeError is raised, a refusal writes to neither operand, propagation maps pupil <-> image and refuses none, PType equality/hash are consistent, and the Wavefront.ptype setter keeps the type in {none, pupil, image} (the induction step that extends the single-step table to sequences of any length). Rotate and Flip are a recorded known finding.',
     'level_note': 'Trusted: lvc interpreter semantics, the rst table parser (fails closed if it does not find 15 cells), numpy models listed in the evidence. Sequences are covered by induction over the type invariant, not by enumeration.',
 }
 FUNCTIONS = []
